@@ -55,7 +55,8 @@ def strategy(draw, tier):
             'n_jobs': draw(st.sampled_from([1, 2, 2, 5, -1])), 'return_samples': draw(st.sampled_from([True, True, False])),
             'via': draw(st.sampled_from(['func', 'group'])), 'refit': draw(st.booleans()),
             'progress': draw(st.sampled_from([None, None, 'tqdm'])), 'layout': draw(st.sampled_from(['C', 'C', 'F', 'T'])),
-            'delays': draw(st.sampled_from([[], [], [60, 30, 0], [40, 0, 20, 0], [80, 0]])), 'other_object': draw(st.booleans())}
+            'delays': draw(st.sampled_from([[], [], [60, 30, 0], [40, 0, 20, 0], [80, 0]])), 'other_object': draw(st.booleans()),
+            'duplicate': draw(st.integers(0, 4)) == 0, 'edit_options': draw(st.integers(0, 2)) == 0}
 
 
 def slice_reference(block, fs, fr, kw):
@@ -67,6 +68,8 @@ def slice_reference(block, fs, fr, kw):
 def check(case, rec):
     fs, fr = case['fs'], tuple(case['f_range'])
     X = np.array([[gen.render_signal(s) for s in row] for row in case['sigs']])
+    if case.get('duplicate') and X.shape[0] * X.shape[1] >= 2:
+        X[-1, -1] = X[0, 0]                 # the same recording at two positions (their options may differ)
     if case.get('layout') == 'F':
         X = np.asfortranarray(X)            # same values and shape, column-major memory (e.g. data loaded from MATLAB files)
     elif case.get('layout') == 'T':
@@ -117,6 +120,17 @@ def run_group(case, X, fs, fr, axis, arg, rs, via, opts, n0, n1):
     with warnings.catch_warnings():
         warnings.simplefilter('ignore')
         if via == 'func':
+            if case.get('edit_options') and isinstance(arg, list) and len(arg) >= 2:
+                # the caller first runs the analysis with the entries in another order, then edits the SAME list object in place
+                first, last = arg[0], arg[-1]
+                arg[0], arg[-1] = last, first
+                try:
+                    with_timeout(lambda: compute_features_3d(X, fs, fr, compute_features_kwargs=arg, axis=axis, return_samples=rs, n_jobs=case['n_jobs']), 120)
+                except Discard:
+                    raise
+                except Exception:  # noqa - only the second call is judged
+                    pass
+                arg[0], arg[-1] = first, last
             out = with_timeout(lambda: guarded(compute_features_3d, X, fs, fr, compute_features_kwargs=arg, axis=axis,
                                                return_samples=rs, n_jobs=case['n_jobs'], progress=case['progress']), 120)
             models = None
@@ -168,7 +182,7 @@ def finish_check(case, rec, X, out, models, refs, axis, mode, via, opt_for, n0, 
     nj = 16 if case['n_jobs'] == -1 else case['n_jobs']
     rec.label('shape:%dx%d' % (n0, n1), 'axis:%s' % (axis,), 'mode:' + mode, 'via:' + via, 'n_jobs:%s' % case['n_jobs'], 'layout:%s' % case.get('layout', 'C'), 'delays' if case.get('delays') else 'no-delays',
               'distinct' if distinct else 'duplicate-tables', 'refit' if (via == 'group' and case['refit']) else 'single-fit')
-    rec.nontrivial((n0 != n1 or (n0 >= 2 and n1 >= 2)) and distinct and (differing or nj >= 2))
+    rec.nontrivial((n0 != n1 or (n0 >= 2 and n1 >= 2)) and (distinct or case.get('duplicate')) and (differing or nj >= 2))
 
 
 PARTS = [Part('group-3d', check, strategy=strategy, budget={'quick': 320, 'thorough': 6000}, shards={'quick': 16, 'thorough': 16},
